@@ -959,8 +959,7 @@ def c18_r1(ctx):
                 info = f.switch_info(bb)
                 d = f.cmp_desc(info) if info else None
                 if d and (W._is_ts(f, d["a"]) != W._is_ts(f, d["b"])):
-                    other = d["b"] if W._is_ts(f, d["a"]) else d["a"]
-                    oo = f.origins_of_operand(other)
+                    oo = W.ts_other_origins(f, d)
                     # other = Ok payload of get_timestamp(Ok payload of get_modified(path param))
                     for o in oo:
                         if not (is_call(o, "system::util::get_timestamp") and o[1:] == (("variant", "Ok"), ("field", 0))):
